@@ -23,6 +23,8 @@ import (
 	"verif/internal/mon"
 )
 
+const longTimeout = 20 * time.Second
+
 // rec is one line the device received, as the oracle compares it.
 type rec struct {
 	Mode  string
@@ -128,6 +130,17 @@ func Run(s Sess) mon.Result {
 	dev := &devsim.CLI{Prompts: prompts, Mode: s.Levels[s.Start].Name, NL: s.NL, HoldPromptSpace: s.HoldSpace}
 	nl := s.NL
 	confirmPending := false
+	// failed-hop family: when armed, the device executes the transition completed by exactly this line
+	// (the mode changes) but keeps its reaction (newline + new prompt) back until the harness releases it
+	var holdArmed *rec
+	held := false
+	maybeHold := func(mode, state, line string, r devsim.Reply) devsim.Reply {
+		if holdArmed != nil && !held && r.NewMode != "" && *holdArmed == (rec{mode, state, line}) {
+			held = true
+			r.NoNewline, r.NoPrompt = true, true
+		}
+		return r
+	}
 	// the strict device: a transition command works only in the right mode; nothing else changes the mode
 	dev.Handler = func(d *devsim.CLI, mode, line string) devsim.Reply {
 		if confirmPending {
@@ -146,15 +159,15 @@ func Run(s Sess) mon.Result {
 			if l.Asks {
 				return devsim.Reply{Ask: &devsim.Ask{Prompt: s.AskPrompt, Then: func(ans string) devsim.Reply {
 					if ans == s.Secondary {
-						return devsim.Reply{NewMode: l.Name}
+						return maybeHold(mode, "hidden", ans, devsim.Reply{NewMode: l.Name})
 					}
 					return devsim.Reply{Out: []devsim.Token{devsim.T(deniedLine + nl)}}
 				}}}
 			}
-			return devsim.Reply{NewMode: l.Name}
+			return maybeHold(mode, "cmd", line, devsim.Reply{NewMode: l.Name})
 		}
 		if p := s.Levels[cur].Parent; p >= 0 && line == s.Levels[cur].Deesc {
-			return devsim.Reply{NewMode: s.Levels[p].Name}
+			return maybeHold(mode, "cmd", line, devsim.Reply{NewMode: s.Levels[p].Name})
 		}
 		if p, ok := payload[line]; ok {
 			var o []devsim.Token
@@ -201,7 +214,7 @@ func Run(s Sess) mon.Result {
 		options.WithPromptSearchDepth(s.PSD),
 		options.WithReturnChar(s.ReturnChar),
 		options.WithReadDelay(time.Duration(s.ReadDelay) * time.Microsecond),
-		options.WithTimeoutOps(20 * time.Second),
+		options.WithTimeoutOps(longTimeout),
 		options.WithPrivilegeLevels(levels),
 		options.WithDefaultDesiredPriv(s.Levels[s.Default].Name),
 	}
@@ -306,6 +319,35 @@ func Run(s Sess) mon.Result {
 			oo = append(oo, opoptions.WithPrivilegeLevel(s.Levels[op.Level].Name))
 		}
 
+		// failed-hop family: arm the hold for hop k of this call's reference path (from the device's true mode)
+		failing := s.Fail != nil && oi == s.Fail.At
+		var failWant []rec // what the device must have received when the held hop has been typed
+		failLevel := -1    // the level the device is in after the held hop
+		if failing {
+			if unknown {
+				return bad("c04/harness:failing-op-unknown-target", "generator error")
+			}
+			up, down := treePath(parentsOf(s.Levels), from, target)
+			k := s.Fail.Hop
+			if len(up)+len(down) == 0 {
+				return bad("c04/harness:failing-op-without-hop", "generator error: device already in the target mode")
+			}
+			if k >= len(up)+len(down) {
+				k = len(up) + len(down) - 1
+			}
+			var mid int
+			if k < len(up) {
+				mid = s.Levels[up[k]].Parent
+			} else {
+				mid = down[k-len(up)]
+			}
+			failWant, _ = expectedPath(&s, from, mid)
+			failLevel = mid
+			h := failWant[len(failWant)-1]
+			conn.Do(func() { holdArmed, held = &h, false })
+			nd.Channel.TimeoutOps = time.Duration(s.Fail.TimeoutMs) * time.Millisecond
+		}
+
 		var oerr error
 		switch op.Kind {
 		case "acquire":
@@ -343,6 +385,56 @@ func Run(s Sess) mon.Result {
 		w1 := atomic.LoadInt64(&writes)
 		got, bare := linesBetween(before.n, after.n)
 		obs["ops"]++
+		if failing {
+			nd.Channel.TimeoutOps = longTimeout
+			var wasHeld bool
+			conn.Do(func() { wasHeld = held; holdArmed = nil })
+			if wasHeld {
+				// the stall was really in force: the device changed its mode and said nothing
+				obs["bare_returns"] += int64(bare)
+				fl := s.Levels[failLevel].Name
+				if oerr == nil {
+					return bad("c04/failed-hop:no-error:"+op.Kind, "device kept its reaction to %s back, yet the call returned nil; device received %s", failWant[len(failWant)-1], recsString(got))
+				}
+				same := len(got) == len(failWant)
+				for i := 0; same && i < len(got); i++ {
+					same = got[i] == failWant[i]
+				}
+				if !same {
+					return bad("c04/failed-hop:path-mismatch", "up to the held hop the device received %s\n expected %s", recsString(got), recsString(failWant))
+				}
+				if after.mode != fl {
+					return bad("c04/harness:failed-hop-mode", "device in %q after the held hop, expected %q", after.mode, fl)
+				}
+				// release the held reaction, let the stream drain into the channel before the next call
+				conn.Do(func() { conn.Emit([]byte(nl + prompts[dev.Mode])) })
+				if !conn.WaitDelivered(len(conn.Stream()), 10*time.Second) {
+					return mon.Result{Verdict: mon.Inconclusive, Detail: "released output not drained within 10 s"}
+				}
+				time.Sleep(2 * time.Millisecond)
+				obs["failed_hops"]++
+				if from == s.Default && len(failWant) <= 2 && failLevel != s.Default {
+					obs["failed_hops_leaving_default_level"]++
+				}
+				obs["ops_after_failed_hop"] += int64(len(s.Ops) - oi - 1)
+				tag("failed-hop-via=%s", op.Kind)
+				tag("failed-hop-error=%s", errClass(oerr))
+				tag("cache-after-failed-hop=%s", nd.CurrentPriv)
+				nontrivial = true
+				continue
+			}
+			if oerr != nil && errors.Is(oerr, util.ErrTimeoutError) {
+				return mon.Result{Verdict: mon.Inconclusive, Detail: "short operation timeout fired before the held hop was reached (load)"}
+			}
+			if oerr != nil && op.Kind != "acquire" && errors.Is(oerr, util.ErrPrivilegeError) && (mon.LoadedSince(t0) || true) {
+				// SendCommand(s) wrap the acquisition error; without the hold having been reached this is the
+				// same premature timeout
+				if op.Kind == "command" || op.Kind == "commands" {
+					return mon.Result{Verdict: mon.Inconclusive, Detail: "short operation timeout fired before the held hop was reached (load)"}
+				}
+			}
+			// the held line never arrived and the call did not time out: judged like any other call
+		}
 		obs["bare_returns"] += int64(bare)
 		tag("op=%s", op.Kind)
 
